@@ -1,7 +1,8 @@
 """Generator of *meaningful* hand-written-style assembly programs (hexasm syntax):
 programs that compute, loop, call, take addresses, and issue system calls -
 including shapes a compiler never emits (back-to-back SVC, backward LDAP used as
-data, BRB jump tables, negative indexed operands).  Every word read has been
+data, BRB jump tables, negative indexed operands, use of the zero start state of
+the registers before anything is loaded).  Every word read has been
 written or is part of the image, so hexsim/hextb/RTL must agree on them."""
 
 
@@ -15,6 +16,11 @@ def program(rnd, size=1.0):
     for i in range(narr):
         L.append("DATA %d" % rnd.randrange(-100, 1000))
     L.append("start")
+    # the architectural start state (pc at 0, areg = breg = oreg = 0) used before any register is loaded
+    if rnd.random() < 0.35:
+        L += rnd.choice([["STAM v0"], ["OPR ADD", "STAM v0"], ["OPR SUB", "STAM v1"], ["BRZ st_z", "LDAC 77", "STAM v0", "st_z"],
+                         ["BRN st_n", "LDBC 5", "OPR ADD", "STAM v1", "st_n"], ["STAM v0", "LDAM v0", "LDBC 65", "OPR ADD", "STAM v1"],
+                         ["LDBM 1", "STAI 2", "LDAC 1", "STAI 3", "LDAC 1", "OPR SVC"]])
     labels = [0]
 
     def lab():
